@@ -236,6 +236,10 @@ def child_main(cfg):
         src = LocalHashFileDB(localfs, os.path.join(root, "src"))
         transfer(src, odb, {HashInfo("md5", cfg["request"])}, shallow=False, **vkw)
         result = cfg["request"]
+    elif scn == "multi_store":  # one transfer() of several directory objects (sharing files) of a source store
+        src = LocalHashFileDB(localfs, os.path.join(root, "src"))
+        transfer(src, odb, {HashInfo("md5", o) for o in cfg["requests"]}, shallow=False, **vkw)
+        result = sorted(cfg["requests"])
     elif scn == "add":  # direct odb.add of workspace files under given oids (check_exists as given)
         items = cfg["items"]
         odb.add([os.path.join(ws, p) for p, _ in items], localfs, [o for _, o in items],
@@ -489,6 +493,7 @@ def abstract(names, events, n_old_tmps=0):
     tmpid = {}
     steps, cuts = [], []
     pending = None
+    JUNK = []  # renames of a content that does not match the final name (only with a corrupt source)
 
     def T(rel):
         if rel not in tmpid:
@@ -535,6 +540,8 @@ def abstract(names, events, n_old_tmps=0):
                 raise Unmodelled(f"rename away from a final name: {e}")
             if qo is not None:
                 steps.append(("Rename", str(T(p)), c_l(names.oid(qo))))
+                if (e.get("before") or {}).get(p, [qo.split(".")[0]])[0] != qo.split(".")[0]:
+                    JUNK.append(qo)
             else:
                 t = T(p)
                 steps.append(("MoveTmp", str(t), str(T(q))))
@@ -554,6 +561,7 @@ def abstract(names, events, n_old_tmps=0):
         else:
             raise Unmodelled(f"event not modelled: {e}")
     cuts.append(len(steps))
+    tmpid["__junk__"] = JUNK
     return steps, cuts, tmpid
 
 
@@ -608,6 +616,30 @@ def gen_tree(rng, big):
     return tree
 
 
+def root_dirs(sc):
+    return sc.get("roots") or [""]
+
+
+def root_entries(sc, r):
+    pre = r + "/" if r else ""
+    return [(rp[len(pre):], md5(b)) for rp, b in sc["tree"].items() if rp.startswith(pre)]
+
+
+def gen_multi(rng, big):
+    """two or three trees handed to ONE transfer(): they share files (same labels file; a directory and its
+    own sub-directory); returns (workspace tree, roots)"""
+    t = {"t1/labels": b"LABELS", "t1/a": rng.choice([b"AAA", b"A1"]), "t1/sub/x": rng.choice([b"XX", b"AAA"]),
+         "t1/sub/labels": b"LABELS", "t2/labels": b"LABELS", "t2/b": rng.choice([b"BBB", b"XX", b""])}
+    if big:
+        for i in range(rng.randint(1, 4)):
+            t["t%d/u%d" % (rng.randint(1, 2), i)] = bytes([70 + i]) * (i + 1)
+        t["t3/labels"] = b"LABELS"
+        t["t3/c"] = rng.choice([b"BBB", b"CCC"])
+    roots = rng.choice([["t1", "t2"], ["t1", "t1/sub"], ["t1", "t2", "t1/sub"]] +
+                       ([["t1", "t2", "t3"], ["t3", "t1/sub", "t2"]] if big else []))
+    return t, roots
+
+
 def setup(root, sc):
     from lib import impl
 
@@ -615,14 +647,15 @@ def setup(root, sc):
     impl.mk_tree(os.path.join(root, "ws"), sc["tree"])
     store = os.path.join(root, "cache")
     os.makedirs(store, exist_ok=True)
-    if sc["scenario"] == "store_transfer":
+    if sc["scenario"] in ("store_transfer", "multi_store"):
         src = os.path.join(root, "src")
-        ents = []
         for rp, b in sc["tree"].items():
-            impl.plant(src, md5(b), b)
-            ents.append((rp, md5(b)))
-        lb = listing_bytes(ents)
-        impl.plant(src, md5(lb) + ".dir", lb)
+            # bad_src: a partial / mismatching object under its final name in the SOURCE (protected, so the
+            # local source's own existence query trusts it)
+            impl.plant(src, md5(b), (b[: len(b) // 2] + b"?") if rp == sc.get("bad_src") else b)
+        for r in root_dirs(sc):
+            lb = listing_bytes(root_entries(sc, r))
+            impl.plant(src, md5(lb) + ".dir", lb)
     for b, mode in sc.get("pre", []):
         b = bytes(b, "latin1") if isinstance(b, str) else b
         impl.plant(store, md5(b), b, mode=mode)
@@ -636,6 +669,10 @@ def child_cfg(root, sc, **kw):
     if sc["scenario"] == "store_transfer":
         ents = [(rp, md5(b)) for rp, b in sc["tree"].items()]
         cfg["request"] = md5(listing_bytes(ents)) + ".dir"
+    if sc["scenario"] == "multi_store":
+        cfg["requests"] = [md5(listing_bytes(root_entries(sc, r))) + ".dir" for r in root_dirs(sc)]
+    if sc["scenario"] == "multi_stage":
+        cfg["roots"] = root_dirs(sc)
     cfg.update(kw)
     return cfg
 
@@ -664,6 +701,23 @@ def scen_term(names, sc, events, steps, cuts, t0):
     if kind == "add":
         its = adds[0]["oids"] if adds else []
         return "(ScAdd %s true %d %s)" % (cb(vcall or vstore), t0, lst(it(o) for o in its))
+    if sc.get("bad_src"):
+        return "ScNone"  # a failing upload withholds the directory object: outside the generators
+    if kind in ("multi_stage", "multi_store"):
+        if not queries:
+            return "ScNone"
+        q = queries[0]["oids"]
+        dadds = [e["oids"][0] for e in adds if len(e["oids"]) == 1 and e["oids"][0].endswith(".dir")]
+        ds = dadds + [o for o in q if o.endswith(".dir") and o not in dadds]
+        fo = []
+        for e in adds:
+            for o in e["oids"]:
+                if not o.endswith(".dir") and o not in fo:
+                    fo.append(o)
+        fo += [o for o in q if not o.endswith(".dir") and o not in fo]
+        return "(ScMTransfer %s %s %d %s %s %s)" % (cb(vcall), cb(kind == "multi_stage"), t0,
+                                                    lst(c_l(names.oid(o)) for o in q), lst(it(o) for o in ds),
+                                                    lst(it(o) for o in fo))
     if kind in ("stage_transfer", "store_transfer", "upload"):
         if not queries:
             return "ScNone"
@@ -696,13 +750,15 @@ def scen_term(names, sc, events, steps, cuts, t0):
 def jsonable(sc):
     return {"scenario": sc["scenario"], "tree": {k: v.decode("latin1") for k, v in sc["tree"].items()},
             "pre": [[b.decode("latin1") if isinstance(b, bytes) else b, m] for b, m in sc.get("pre", [])],
-            "verify": bool(sc.get("verify")), "store_verify": bool(sc.get("store_verify"))}
+            "verify": bool(sc.get("verify")), "store_verify": bool(sc.get("store_verify")),
+            "roots": sc.get("roots"), "bad_src": sc.get("bad_src")}
 
 
 def unjson(case):
     return {"scenario": case["scenario"], "tree": {k: v.encode("latin1") for k, v in case["tree"].items()},
             "pre": [(b.encode("latin1"), m) for b, m in case.get("pre", [])],
-            "verify": bool(case.get("verify")), "store_verify": bool(case.get("store_verify"))}
+            "verify": bool(case.get("verify")), "store_verify": bool(case.get("store_verify")),
+            "roots": case.get("roots"), "bad_src": case.get("bad_src")}
 
 
 def crash_and_rerun(wd, sc, n, tag):
@@ -766,7 +822,7 @@ def execute_full(args):
     events = read_log(flog)
     afin = audit(root)
     src_dirs = {}
-    if kind == "store_transfer":
+    if kind in ("store_transfer", "multi_store"):
         for o, (m, _mode, b) in audit(root, "src")["objs"].items():
             if o.endswith(".dir"):
                 src_dirs[m] = b
@@ -835,6 +891,7 @@ def run_scenario(ctx, sc, label, data, full_items, rr_items):
             parts[body[i + 1]["md5"]] = e["md5"]
     try:
         steps, cuts, _tm = abstract(names, events)
+        junk0 = bool(_tm["__junk__"]) and bool(sc.get("bad_src"))
     except Unmodelled as exc:
         ctx.broken("correspondence", "correspondence:trace-abstraction",
                    f"the recorded event stream of scenario {label} contains an event the step machine does not have",
@@ -878,7 +935,8 @@ def run_scenario(ctx, sc, label, data, full_items, rr_items):
         # ---- the re-run as a trace of the machine, from the crashed world
         if r["rc2"] == 0:
             try:
-                rsteps, rcuts, _ = abstract(names, r["ev2"], n_old_tmps=len(view[1]))
+                rsteps, rcuts, _tm2 = abstract(names, r["ev2"], n_old_tmps=len(view[1]))
+                junk2 = bool(_tm2["__junk__"]) and bool(sc.get("bad_src"))
             except Unmodelled as exc:
                 ctx.broken("correspondence", "correspondence:trace-abstraction",
                            f"the re-run after a kill at event {n} of scenario {label} contains an event the step "
@@ -889,7 +947,10 @@ def run_scenario(ctx, sc, label, data, full_items, rr_items):
             term = ("(mkT %s %s [%d] %s %s %s %s)" % (
                 kids_t, parts_t, rcuts[-1], empty_t, world_term(names, view[0], view[1], r["a1"]["rows"]),
                 steps_term(rsteps), scen_term(names, sc, r["ev2"], rsteps, rcuts, len(view[1]))))
-            exp = "VL [VN %d; VN %d; VL [%s]; VN 1]" % (0 if bad else 1, 0 if bad else 1,
+            # with a corrupt SOURCE object the copy renames a mismatching content into place (unprotected, dropped
+            # by the verification): such a trace is outside the machine's discipline (valid_trace = false) while
+            # crash_inv_b must still hold at every prefix
+            exp = "VL [VN %d; VN %d; VL [%s]; VN 1]" % (0 if (bad or junk2) else 1, 0 if bad else 1,
                                                        world_val(names, v2[0], v2[1], r["a2"]["rows"]))
             rr_items.append((case, term, exp))
     fv = audit_view(afin)
@@ -898,7 +959,7 @@ def run_scenario(ctx, sc, label, data, full_items, rr_items):
         kids_t, parts_t, "[" + "; ".join(str(c) for c in cuts) + "]", empty_t,
         world_term(names, init_view[0], init_view[1], a0["rows"]), steps_term(steps),
         scen_term(names, sc, events, steps, cuts, 0))
-    exp = "VL [VN 1; VN 1; VL [%s]; VN 1]" % "; ".join(cut_worlds)
+    exp = "VL [VN %d; VN 1; VL [%s]; VN 1]" % (0 if junk0 else 1, "; ".join(cut_worlds))
     if len(cut_worlds) == len(cuts):
         full_items.append(({"scenario": jsonable(sc), "kill_at": 0}, term, exp))
 
@@ -910,18 +971,31 @@ def scenarios(ctx):
     # (kind, per-call verify, store default verify)
     kinds = [("stage_transfer", False, False), ("save", False, False), ("store_transfer", False, False),
              ("upload", False, False), ("save", True, False), ("add", True, False), ("save", False, True)]
+    # (several STAGED trees cannot go through one transfer(): every build() returns its own in-memory
+    # reference store, so the multi-directory transfer is exercised store -> store)
+    kinds += [("multi_store", False, False), ("multi_store", False, False), ("bad_src", True, False)]
     if big:
-        kinds += [("stage_transfer", False, True), ("stage_transfer", True, False), ("store_transfer", True, False), ("upload", True, False),
+        kinds += [("multi_store", True, False), ("stage_transfer", False, True), ("stage_transfer", True, False), ("store_transfer", True, False), ("upload", True, False),
                   ("add", False, True), ("add", False, False)]
     reps = ctx.n(1, 3)
     for rep in range(reps):
         for k, vc, vs in kinds:
             tree = gen_tree(rng, big and rep > 0)
+            extra = {}
+            if k in ("multi_stage", "multi_store"):
+                tree, extra["roots"] = gen_multi(rng, big and rep > 0)
+            if k == "bad_src":
+                # verify=True transfer from a source holding a partial object under a final name
+                k = "store_transfer"
+                cands = sorted(rp for rp, b in tree.items() if len(b) >= 2)
+                extra["bad_src"] = cands[rng.randrange(len(cands))] if cands else None
+                tree = {rp: b for rp, b in tree.items()
+                        if rp == extra["bad_src"] or b != tree.get(extra["bad_src"])}
             if k == "save":
                 tree.setdefault("d/e/deep", rng.choice([b"AAA", b"ZZ"]))
             if k == "add":
                 tree = dict(sorted(tree.items())[:4])
-            sc = {"scenario": k, "tree": tree, "pre": [], "verify": vc, "store_verify": vs}
+            sc = {"scenario": k, "tree": tree, "pre": [], "verify": vc, "store_verify": vs, **extra}
             # some runs start from a store that already holds one of the objects (protected, or left unprotected)
             if rep > 0 or k == "stage_transfer" or (big and rng.random() < 0.4):
                 b = tree[sorted(tree)[rng.randrange(len(tree))]]
